@@ -30,7 +30,10 @@ Exp(c, list, A) == IF SeqSet(list) \cap A # {} THEN Top(list, A) ELSE IF c \in S
 \* Their Current() then depends on timers (the subject of ME.tla): the ghost does not predict it, it adopts the recorded
 \* routes and checks what the statements say whatever the timers do (see the clauses C15_r, C15_t).  quiet = r + d.
 GGInit == [alive |-> FALSE, closed |-> FALSE, mes |-> <<>>, def |-> "", up |-> {"a", "b", "c", "d"}, cur |-> <<>>, pools |-> {},
-           timed |-> FALSE, quiet |-> 0]
+           timed |-> FALSE, quiet |-> 0, sev |-> {}]
+\* sev: endpoints whose pool connection was closed by the application (input "sever"); such a pool counts as unavailable until an
+\* accepted update drops the endpoint (a later update that names it again dials a fresh connection)
+Avail(g) == g.up \ g.sev
 \* cur is a sequence of [name, e] sorted by name (like the recorded routes)
 
 CurOf(g, n) == LET S == {i \in DOMAIN g.cur : g.cur[i].name = n} IN IF S = {} THEN "" ELSE g.cur[CHOOSE i \in S : TRUE].e
@@ -61,17 +64,21 @@ GGNext(g, ev) ==
   ELSE IF ev.res \in {"SKIPPED"} THEN g
   ELSE IF ev.op \in {"new", "update"}
   THEN IF ev.res = "OK" /\ ValidOpts(g, ev)
-       THEN LET g1 == [g EXCEPT !.alive = TRUE, !.mes = ev.mes, !.def = ev.def, !.pools = Mentioned(ev.mes)]
-            IN [g1 EXCEPT !.cur = IF g.timed THEN ev.routes ELSE RoutesFor(g, ev.mes, g.up \cap Mentioned(ev.mes))]
+       THEN LET g1 == [g EXCEPT !.alive = TRUE, !.mes = ev.mes, !.def = ev.def, !.pools = Mentioned(ev.mes), !.sev = @ \cap Mentioned(ev.mes)]
+            IN [g1 EXCEPT !.cur = IF g.timed THEN ev.routes ELSE RoutesFor(g, ev.mes, Avail(g1) \cap Mentioned(ev.mes))]
        ELSE IF ev.res = "OK"   \* accepted although invalid (reported by C16_a): the ghost keeps the last valid options
        THEN g
        ELSE IF ev.op = "update"   \* rejected update: pools dialled before the failure stay until the next accepted update or Close
        THEN [g EXCEPT !.pools = @ \cup {ev.dials[i].e : i \in {j \in DOMAIN ev.dials : ev.dials[j].ok}}]
        ELSE g
   ELSE IF ev.op = "down" THEN LET g1 == [g EXCEPT !.up = @ \ {ev.e}] IN
-       IF g.alive /\ ~g.closed THEN [g1 EXCEPT !.cur = IF g.timed THEN ev.routes ELSE RoutesFor(g, g.mes, g1.up \cap g.pools)] ELSE g1
+       IF g.alive /\ ~g.closed THEN [g1 EXCEPT !.cur = IF g.timed THEN ev.routes ELSE RoutesFor(g, g.mes, Avail(g1) \cap g.pools)] ELSE g1
   ELSE IF ev.op = "up" THEN LET g1 == [g EXCEPT !.up = @ \cup {ev.e}] IN
-       IF g.alive /\ ~g.closed THEN [g1 EXCEPT !.cur = IF g.timed THEN ev.routes ELSE RoutesFor(g, g.mes, g1.up \cap g.pools)] ELSE g1
+       IF g.alive /\ ~g.closed THEN [g1 EXCEPT !.cur = IF g.timed THEN ev.routes ELSE RoutesFor(g, g.mes, Avail(g1) \cap g.pools)] ELSE g1
+  ELSE IF ev.op = "sever" THEN
+       IF g.alive /\ ~g.closed /\ ev.e \in g.pools
+       THEN LET g1 == [g EXCEPT !.sev = @ \cup {ev.e}] IN [g1 EXCEPT !.cur = IF g.timed THEN ev.routes ELSE RoutesFor(g, g.mes, Avail(g1) \cap g.pools)]
+       ELSE g
   ELSE IF ev.op = "tick" THEN (IF g.timed /\ g.alive /\ ~g.closed THEN [g EXCEPT !.cur = ev.routes] ELSE g)
   ELSE IF ev.op = "close" THEN [g EXCEPT !.closed = TRUE]
   ELSE g
@@ -85,8 +92,8 @@ OkDials(ev) == {i \in DOMAIN ev.dials : ev.dials[i].ok}
 \* routes allowed right when a successful new/update returns: kept pools count for sure, new pools may or may not be ready yet -
 \* and every MultiEndpoint is told separately, so each may already reflect a different subset of the new pools
 Routes0Allowed(g, ev) ==
-  LET kept == g.up \cap g.pools \cap Mentioned(ev.mes)
-      all == g.up \cap Mentioned(ev.mes)
+  LET kept == Avail(g) \cap g.pools \cap Mentioned(ev.mes)
+      all == Avail(g) \cap Mentioned(ev.mes)
       ns == SortedNames(Names(ev.mes))
   IN /\ Len(ev.routes0) = Len(ns)
      /\ \A i \in DOMAIN ns :
@@ -102,15 +109,15 @@ GClauses(g, ev, g2) ==
       expE == CurOf(g, target)
   IN
   { Cl("C15_a", ev.op = "rpc" /\ live /\ ev.res = "OK", ev.srv = expE),
-    Cl("C15_a2", ev.op = "rpc" /\ live /\ ev.res \notin {"SKIPPED"} /\ expE \in g.up /\ ev.settled, ev.res = "OK" /\ ev.srv = expE),
+    Cl("C15_a2", ev.op = "rpc" /\ live /\ ev.res \notin {"SKIPPED"} /\ expE \in Avail(g) /\ ev.settled, ev.res = "OK" /\ ev.srv = expE),
     Cl("C15_b", isCfg /\ valid /\ ev.res = "OK",
                 /\ SeqSet(ev.pools) = Mentioned(ev.mes)
-                /\ \A e \in {"a", "b", "c", "d"} : Cardinality(OpenConns(ev, e)) = (IF e \in Mentioned(ev.mes) THEN 1 ELSE 0)
+                /\ \A e \in {"a", "b", "c", "d"} : Cardinality(OpenConns(ev, e)) = (IF e \in Mentioned(ev.mes) \ g.sev THEN 1 ELSE 0)
                 /\ {ev.dials[i].e : i \in DOMAIN ev.dials} = NewEps(g, ev)
                 /\ Len(ev.dials) = Cardinality(NewEps(g, ev))
                 /\ \A i \in DOMAIN ev.dials : ev.dials[i].ok),
     Cl("C15_c", isCfg /\ valid /\ ev.res = "OK" /\ ~g.timed, Routes0Allowed(g, ev)),
-    Cl("C15_d", (isCfg /\ valid /\ ev.res = "OK") \/ (ev.op \in {"down", "up"} /\ live), ev.settled /\ ev.routes = g2.cur),
+    Cl("C15_d", (isCfg /\ valid /\ ev.res = "OK") \/ (ev.op \in {"down", "up", "sever"} /\ live /\ ev.res = "OK"), ev.settled /\ ev.routes = g2.cur),
     \* every MultiEndpoint's current endpoint is one of its configured endpoints (so that a pool exists for it)
     Cl("C15_r", g2.alive /\ ~g2.closed /\ ev.op \notin {"reset", "close"} /\ ev.res \notin {"PANIC", "HANG", "SKIPPED"},
                 /\ {ev.routes[i].name : i \in DOMAIN ev.routes} = Names(g2.mes)
@@ -118,7 +125,7 @@ GClauses(g, ev, g2) ==
     \* "routing follows within bounded time": once the clock has advanced by more than recovery timeout + switching delay with no
     \* other input, every MultiEndpoint is on its top available endpoint (or stays where it is when none is available)
     Cl("C15_t", ev.op = "tick" /\ live /\ ev.n > g.quiet /\ ev.res = "OK",
-                ev.settled /\ ev.routes = RoutesFor(g, g.mes, g.up \cap g.pools)),
+                ev.settled /\ ev.routes = RoutesFor(g, g.mes, Avail(g) \cap g.pools)),
     Cl("C16_a", isCfg /\ ~valid, ev.res = "ERR"),
     Cl("C16_b", ev.op = "update" /\ live /\ ev.res = "ERR", ev.routes = g.cur /\ ev.routes0 = g.cur /\ g.pools \subseteq SeqSet(ev.pools)),
     Cl("C16_c", ev.op \notin {"reset"}, ev.res \notin {"PANIC", "HANG"}),
@@ -127,8 +134,8 @@ GClauses(g, ev, g2) ==
     Cl("C16_f", isCfg /\ valid, ev.res = "OK"),
     \* "no accepted or rejected update can make a later RPC ... use a closed pool": a call routed to an endpoint that is up succeeds,
     \* and every pool the object holds after an accepted update has an open connection
-    Cl("C16_g", ev.op = "rpc" /\ live /\ ev.res \notin {"SKIPPED"} /\ expE \in g.up /\ ev.settled, ev.res = "OK"),
-    Cl("C16_h", isCfg /\ valid /\ ev.res = "OK", \A e \in SeqSet(ev.pools) : Cardinality(OpenConns(ev, e)) >= 1) }
+    Cl("C16_g", ev.op = "rpc" /\ live /\ ev.res \notin {"SKIPPED"} /\ expE \in Avail(g) /\ ev.settled, ev.res = "OK"),
+    Cl("C16_h", isCfg /\ valid /\ ev.res = "OK", \A e \in SeqSet(ev.pools) \ g2.sev : Cardinality(OpenConns(ev, e)) >= 1) }
 
 GClauseIds == {"C15_a", "C15_a2", "C15_b", "C15_c", "C15_d", "C15_r", "C15_t", "C16_a", "C16_b", "C16_c", "C16_d", "C16_e", "C16_f", "C16_g", "C16_h"}
 GExercised(g, ev, g2) == {[id |-> c.id, ok |-> c.ok] : c \in {x \in GClauses(g, ev, g2) : x.on}}
